@@ -54,6 +54,28 @@ PROPS = {
         assumptions=["the step budget of the oracle (400x + 5000) is a generous instance of the bound the fairness rank gives for nesting depth <= 5"],
         open=[],
     ),
+    "C08": dict(
+        title="committed choice (conda/condu/onceo)",
+        props_module="PvModel.Props.C08",
+        rule="a deterministic prefix followed by one conda/condu/onceo whose clause heads have 0, 1, many, lazily produced or infinitely many "
+             "answers (infinite heads for condu/onceo), rests from the search generator; observable: answer sequence; oracle: heads run alone "
+             "on the real engine in raw mode (engine order), rest continued from every head state (conda) / the first (condu, onceo), "
+             "multisets compared; non-trivial = at least one answer; distinct = distinct case lines",
+        trusted=SEARCH_TRUST,
+        assumptions=["matcha/matchu are covered through their elaboration to conda/condu (C13)"],
+        open=[],
+    ),
+    "C10": dict(
+        title="branch isolation (conde {A, B} vs A alone and B alone)",
+        props_module="PvModel.Props.C10",
+        rule="a shared prefix (domains, FD constraints incl. distinctfd, bindings, disequalities, plusz) followed by conde of 2-3 clauses that post "
+             "bindings/disequalities/domains/FD/CLP(Z) constraints and may produce several interleaved answers; the same prefix followed by each "
+             "clause alone; oracle: multiset(combined) = union of the separate runs; observable for the model: the combined answer sequence; "
+             "non-trivial = >=2 answers in total; distinct = distinct case lines",
+        trusted=SEARCH_TRUST + ["PARTIAL: aliasing (Rc::make_mut, the unsafe write in LTerm::project) cannot be exhibited by a value-semantics model; it is covered by the combined-vs-separate runs only"],
+        assumptions=[],
+        open=["user-state isolation is checked under C22"],
+    ),
     "C01": dict(
         title="unification (State::unify vs unifyF)",
         props_module="PvModel.Props.C01",
